@@ -3,7 +3,7 @@ import torch
 from hypothesis import strategies as st
 
 from lov import exc as X
-from lov import gen, lit as L, recipe as R, refmodel, tol
+from lov import gen, lit as L, recipe as R, refmodel, state, tol
 from lov.core import HarnessError, Violation
 
 ID = "C01"
@@ -40,6 +40,13 @@ def cases(draw, tier):
     r = draw(strat)
     opn = draw(st.sampled_from(OPS))
     case = {"recipe": r, "opn": opn}
+    if draw(st.integers(0, 4)) == 0:
+        cell = draw(st.sampled_from(FLAG_CELLS))
+        if cell.get("trace_mode") and any(n["op"] == "Mul" for n in R.walk(r)):
+            # trace_mode documents that data-dependent checks are skipped: psd_safe_cholesky then returns the factor of a
+            # non-PD matrix unchecked, so root-defined (Mul) nodes over singular operands are outside its contract
+            cell = {"memory_efficient": True}
+        case["settings"] = cell
     if opn in ("matmul", "matmul_method", "t_matmul", "rmatmul", "rmatmul_vec"):
         shp = refmodel.shape(r)
         dt = R.dtype_of(r)
@@ -224,7 +231,20 @@ def _blame(r, opn):
     return None
 
 
+FLAG_CELLS = [{"trace_mode": True}, {"memory_efficient": True}, {"debug": False}, {"trace_mode": True, "debug": False}]
+
+
 def check(case):
+    """The value and shape of an operator do not depend on feature flags: optionally under a few of them."""
+    cell = case.get("settings") or {}
+    with state.apply_settings(cell):
+        info = _check_under_settings(case)
+    if info and cell:
+        info["labels"] = list(info.get("labels", [])) + ["settings:" + ",".join(sorted(cell))]
+    return info
+
+
+def _check_under_settings(case):
     r, opn = case["recipe"], case["opn"]
     try:
         run_op(r, opn, case.get("rhs"))
